@@ -34,6 +34,23 @@ def load_known():
     return json.load(open(p)).get('findings', [])
 
 
+LADDER_TIMEOUT = int(os.environ.get('VERIF_LADDER_TIMEOUT', '100'))
+
+
+def focus_text(text, table, keep):
+    """the unit file with every function under contract EXCEPT those in `keep`, and every lemma, marked external_body (line
+    numbers unchanged): what a focused retry verifies is exactly the kept functions against the same contracts"""
+    lines = text.split('\n')
+    for (lo, hi, name, origin, kind) in table:
+        if kind == 'fn' and name not in keep:
+            lines[lo - 1] = '#[verifier::external_body] ' + lines[lo - 1]
+        elif kind == 'lemma':
+            for k in range(lo - 1, min(hi, len(lines))):
+                if re.match(r'\s*(pub )?(broadcast )?proof fn ', lines[k]) and 'external_body' not in lines[k] and (k == 0 or 'external_body' not in lines[k - 1]):
+                    lines[k] = '#[verifier::external_body] ' + lines[k]
+    return '\n'.join(lines)
+
+
 def run_unit(u, tier):
     try:
         text = u.emit()
@@ -63,6 +80,40 @@ def run_unit(u, tier):
                                 'n_functions_seen': len(j.get('func-details', {}) or {})}
             out['failures'] += [dict(f, unit=u.name, model=u.model, **{'pass': w}) for f in fails]
             out['infra'] += infra
+    # escalation ladder: an exec-function obligation that fails under the default options is retried alone (every other
+    # function and every lemma of the file taken as verified: they were, in the run above) with Z3's nonlinear arithmetic
+    # enabled; only what still fails is a failure.  A semantics-preserving rewrite (commuted product, hoisted
+    # subexpression) must not raise an alarm because the default linear mode cannot see through it.
+    retry = [f for f in out['failures'] if f.get('pass') == 'A' and f.get('kind') == 'fn' and not f.get('canary')]
+    out['escalated'] = []
+    if retry and not out['infra']:
+        keep = set(f['obligation'] for f in retry)
+        fpath = path[:-3] + '_focus.rs'
+        open(fpath, 'w').write(focus_text(text, u.table, keep))
+        still = None
+        NL = ('--smt-option', 'smt.arith.solver=6', '--smt-option', 'smt.arith.nl=true')     # what Verus itself uses for by(nonlinear_arith)
+        for opts in (NL, NL + ('--smt-option', 'smt.random_seed=11', '--rlimit', '60')):
+            res = driver.run_verus(fpath, 'A', 8, tuple(getattr(u, 'verus_extra', {}).get('A', ())) + opts, timeout=LADDER_TIMEOUT)
+            fails2, infra2 = driver.classify(u, res, fpath)
+            if res['json'] is None or res['rc'] == 124 or any('does not compile' in x or 'verus/rustc error' in x for x in infra2):
+                break
+            bad = set(f['obligation'] for f in fails2 if not f.get('canary'))
+            # an obligation the focused run could not decide (resource limit) stays failed
+            undecided = set()
+            for x in infra2:
+                undecided |= set(k for k in keep if k in x)
+            now_ok = keep - bad - undecided if not [x for x in infra2 if 'resource limit' in x or 'unclassified' in x] else set()
+            for k in sorted(now_ok):
+                out['escalated'].append({'obligation': k, 'options': ' '.join(opts), 'wall_s': res['wall_s']})
+            keep -= now_ok
+            out['passes']['A']['cmd'] += ' ; ' + res['cmd']
+            if not keep:
+                break
+            open(fpath, 'w').write(focus_text(text, u.table, keep))
+        ok = set(e['obligation'] for e in out['escalated'])
+        out['failures'] = [f for f in out['failures'] if f.get('obligation') not in ok]
+        out['passes']['A']['verified'] += len(ok)
+        out['passes']['A']['errors'] -= len(ok)
     if tier == 'thorough' and not out['infra']:
         # stability: re-run pass A under two more solver seeds; an obligation that flips is unstable (exit 2), not a violation
         base = (out['passes']['A']['verified'], out['passes']['A']['errors'])
@@ -179,6 +230,7 @@ def finish(prop, tier, seed, result, evid_path):
             'functions': [dict(anchor=fn['anchor'], origin=fn['origin'], body=fn['body_sha256_16'], unit=r['unit'], model=r['model'])
                           for r in result['units'] for fn in r['functions']],
             'per_unit': [{k: r[k] for k in ('unit', 'model', 'passes', 'canaries', 'canaries_failed_as_expected', 'n_lemmas', 'n_poly', 'trusted_prelude_items')} for r in result['units']],
+            'escalated_obligations': [dict(e, unit=r['unit']) for r in result['units'] for e in r.get('escalated', [])],
             'solver_time_s': round(smt_ms / 1000.0, 2),
             'kani': ({k: v for k, v in result['kani'].items() if k not in ('failures', 'infra', 'samples')} if result['kani'] else None),
             'bounded_obligations': bounded,
